@@ -14,6 +14,7 @@ import UnifexModel.Driver.Entries.SpawnFuture
 import UnifexModel.Driver.Entries.Coro
 import UnifexModel.Driver.Entries.Mutex
 import UnifexModel.Driver.Entries.Cancel
+import UnifexModel.Driver.Entries.AsyncStack
 
 namespace Unifex.Driver
 
@@ -40,6 +41,7 @@ def table : List ModelEntries :=
   , Entries.detachoncancel
   , Entries.canary
   , Entries.stoponrequest
+  , Entries.asyncstackEntries
   ]
 
 def lookup (m c : String) : Option Entry :=
